@@ -59,13 +59,12 @@ def check(world) -> Dict[str, Any]:
     from mc import htaenv
 
     viol: List[Any] = []
-    evs = cpworlds.build(world)
-    ta, _ = htaenv.load_world({0: evs})
+    ta, rank, evs, m = cpworlds.load(world)
     b = bounds(world.get("tier", "quick"))
     execs = 0
     multi = False
     outcome = []
-    for ctx, g in cpworlds.graphs_for(world, ta):
+    for ctx, g in cpworlds.graphs_for(world, ta, rank=rank):
         execs += 1
         ts = [int(n.ts) for n in g.node_list]
         total = path_checks(g, "analysis", viol, ctx, makespan=max(ts) - min(ts))
